@@ -228,7 +228,7 @@ fn gen_shuffle_case(cur: &mut Cursor) -> Value {
     for _ in 0..post {
         ops.push(gen_op(cur, Bias::Shuffle).to_json());
     }
-    json!({"fen": p.fen(), "src": src, "ops": ops})
+    crate::common::with_twin(cur, json!({"fen": p.fen(), "src": src, "ops": ops}))
 }
 
 pub fn property() -> Property {
